@@ -329,6 +329,11 @@ class Rig:
                 rec.update(outcome="pkt", labels=sorted(self.labels.get(id(pkt), {"UNLABELLED"})), frame=str(pkt) if pkt is not None else None,
                            is_none=pkt is None)
             except BaseException as e:  # noqa: BLE001
+                if isinstance(e, asyncio.CancelledError) and i in self.abandoned:
+                    # the application gave up on this send itself (an outer wait_for / task.cancel(), as the library's own
+                    # send_disc_cmd() does with a 15 s wait_for round a 20 s send): the caller's own doing, not an answer
+                    rec.update(outcome="abandoned", t_done=loop.time(), tick_done=self.tick())
+                    return
                 if isinstance(e, asyncio.CancelledError):
                     rec.update(outcome="exc", exc="CancelledError", family=False, msg="")
                     rec["t_done"] = loop.time()
@@ -344,8 +349,19 @@ class Rig:
         for i, spec in enumerate(case["callers"]):
             self.frames_by_caller[i] = cmd_frame(self.cmds[spec["cmd"]])
 
+        self.abandoned: set[int] = set()
+
+        def abandon(i: int) -> None:
+            t = self.tasks.get(i)
+            if t is not None and not t.done():
+                self.abandoned.add(i)
+                self.events.append((loop.time(), self.tick(), "abandon", i))
+                t.cancel()
+
         def start(i: int, spec: dict) -> None:
             self.tasks[i] = loop.create_task(caller(i, spec))
+            if spec.get("abandon") is not None:
+                loop.call_at(loop.time() + spec["abandon"], abandon, i)
 
         for i, spec in enumerate(case["callers"]):
             loop.call_at(spec["t"], start, i, spec)
